@@ -91,6 +91,8 @@ type Frame struct {
 	frameWhole map[string]bool
 	frameRefs  map[string][]Term
 	frameAll   bool
+	parent     *Frame
+	localCells map[string][]Term // region -> refs of non-escaping local cells (Alloc) of this frame
 }
 
 type dref struct {
@@ -910,7 +912,7 @@ func (f *Frame) loopWrites(li *loopInfo) []string {
 	}
 	if set["*"] {
 		for r := range f.u.rsorts {
-			if !strings.HasPrefix(r, "Gh_") {
+			if !strings.HasPrefix(r, "Gh_") && !f.u.eng.initOnlyGlobals()[r] {
 				set[r] = true
 			}
 		}
